@@ -336,6 +336,11 @@ class Sim:
                 depth[0] -= 1
 
         def append(entry):
+            if getattr(sim, 'chron_fail', False):
+                # the journal cannot be written this once (disk full)
+                sim.chron_fail = False
+                raise world.InjectedIOFault(28, 'No space left on device '
+                                            '(injected)')
             sim.calls.append(
                 ('append', entry['task'], entry['target'], entry['runid'],
                  entry['status'])
@@ -668,6 +673,9 @@ class Sim:
         u.answered = True  # delivered from here on
         # was the job still in the scheduler's queue when its reply arrived?
         self.reply_job_queued = any(j.tag == u.jobid for j in self.sched.que)
+        if getattr(self, 'chronfault_armed', False):
+            self.chron_fail = True
+            self.chronfault_armed = False
         if getattr(self, 'tgtfault_armed', False) and hasattr(
                 self.db, 'fail_targets'):
             # the fault hits the farm while it handles this reply
@@ -682,6 +690,7 @@ class Sim:
                                 repr(exc)))
             sock.close(clean=False)
         finally:
+            self.chron_fail = False
             if hasattr(self.db, 'fail_targets'):
                 self.db.fail_targets = 0
         return u, newset
@@ -940,6 +949,10 @@ class Sim:
             if hasattr(self.db, 'fail_next'):
                 self.db.fail_next = 1
                 self.db.fail_skip = op[1] if len(op) > 1 else 0
+        elif kind == 'chronfault':
+            # the execution journal cannot be written while the farm handles
+            # the next reply
+            self.chronfault_armed = True
         elif kind == 'tgtfault':
             # db.targets() fails once while the farm handles the next reply
             self.tgtfault_armed = True
@@ -1128,7 +1141,7 @@ def op_strategy(weights=None):
         'tick': 2, 'rep': 2, 'req': 2, 'join': 1, 'leave': 0, 'tgt': 1,
         'pause': 0, 'active': 0, 'rereq': 1, 'auto': 9,
         'auto2': 8, 'requp': 1, 'status': 0, 'reload': 0, 'archived': 0,
-        'joinx': 0, 'timer': 0, 'dbfault': 0, 'tgtfault': 0,
+        'joinx': 0, 'timer': 0, 'dbfault': 0, 'tgtfault': 0, 'chronfault': 0,
     }
     w.update(weights or {})
     small = st.integers(0, 7)
@@ -1169,6 +1182,7 @@ def op_strategy(weights=None):
                           st.sampled_from([0, 0, 1, 1, 2])).map(list)
                 ] * w['dbfault']
     choices += [st.just(['tgtfault'])] * w['tgtfault']
+    choices += [st.just(['chronfault'])] * w['chronfault']
     choices += [st.tuples(st.just('timer'),
                           st.sampled_from([0, 0, 0, 0, 1, 2, 3])).map(list)
                 ] * w['timer']
